@@ -12,7 +12,9 @@ C13  one clf.exchange() per (driver x target kind x host command index k x statu
      also a well formed CCID message whose pseudo-APDU is cut to 0..len-1 octets).
      oracle: the call returns bytes/bytearray (None only as a listening target) or raises an
      nfc.clf.CommunicationError subclass or IOError/OSError.  Finer clauses only where manual and driver
-     documentation agree: status 01h of the RF exchange command as initiator -> TimeoutError; chip silent after
+     documentation agree: a transport-level fault (write fails / no or failing read for the ACK / hard read error
+     for the response) at any host command of exchange(), sense() or listen() -> IOError only;
+     status 01h of the RF exchange command as initiator -> TimeoutError; chip silent after
      the ACK of the RF exchange command -> TimeoutError (exchange() docstring); status 29h (released by the
      initiator; RC-S956 also 31h RF-off) of TgGetInitiatorCommand -> BrokenLinkError; CIU RFOffIRq while a
      FeliCa listen target -> BrokenLinkError.
@@ -22,7 +24,8 @@ C14  (a) every frame a Chipset.command() writes is valid under vf.ref.frames and
          frame with TFI 7Fh)
      (c) nfc.clf.device CRC_A/CRC_B helpers equal vf.ref.crc; single-bit corruptions are rejected; the driver
          side CRC checks (Type 2 Tag READ through InCommunicateThru, Type 1 Tag READ8 through the CIU) never
-         return a frame with a wrong CRC as data.
+         return a frame with a wrong CRC as data; the same for Type 2 Tag platform targets of every SEL_RES value
+         with (SEL_RES & 60h) == 0 (run_selres_crc), where intact frames must come back without the CRC octets.
 """
 import random
 
@@ -35,7 +38,9 @@ ASSUMPTIONS = [
     "vf.ref.frames is a faithful reading of the PN532/PN533 host frame structure, the CCID bulk message header and the ACR122U pseudo-APDU envelope; a host frame with more than one preamble byte is legal only on serial links",
     "vf.ref.crc is a faithful reading of ISO/IEC 14443-3 Annex B (its worked examples are test vectors)",
     "CCID header bytes bSlot/bSeq/bStatus/bError/bChainParameter of an ACR122U answer are not judged (no checksum protects them and the property names framing, identifier, response code and status word only)",
-    "a host-link fault changes what the host reads or makes the write fail; the chip still executes the command",
+    "a host-link fault changes what the host reads or makes the write fail; the chip still executes the command (not when the write fails)",
+    "a transport exception while the command frame is written or the ACK frame awaited (any errno, ETIMEDOUT included), and a transport exception other than ETIMEDOUT while the response is awaited, is a host-link failure and must be reported as IOError; only errors nfc/clf/transport.py can raise at that point are injected (USB read ETIMEDOUT/EIO/ENODEV, USB write EIO/ENODEV, serial additionally IOError without errno from pyserial)",
+    "the CIU appends/verifies CRC_A for InCommunicateThru at 106 kbps Type A exactly when CIU_TxMode.TxCRCEn / CIU_RxMode.RxCRCEn (bit 7) are set, reports a failed check as status 02h, and hands the received octets over unchanged when RxCRCEn is clear",
     "C13 finer clauses: PN53x status 01h and a silent chip after ACK mean time-out; status 29h (RC-S956 also 31h) of TgGetInitiatorCommand and CIU_DivIRq.RFOffIRq mean the remote side left",
 ]
 
@@ -56,17 +61,36 @@ RULE_C13 = ("cell = (driver in pn531/pn532/pn533/rcs956/acr122/arygonA/arygonB/p
             "106/424 as far as supported) x (k = 1..n over every host command of the reference exchange) x (all 256 status "
             "bytes where the command has a status field + every host-link fault of the link type, including the response "
             "frame / CCID message cut to every length 1..len-1, the ACK frame cut to 1..5 octets (frame links) and the "
-            "pseudo-APDU inside a well formed CCID message cut to 0..len-1 octets (ACR122)); distinct by "
-            "(driver, kind, k, action); non-trivial if the scripted action was actually delivered by the simulator")
+            "pseudo-APDU inside a well formed CCID message cut to 0..len-1 octets (ACR122), and a well formed response "
+            "with 1/2/5 surplus payload octets); the transport-level faults (write raises EIO/ENODEV/[serial: no errno]; "
+            "the read for the ACK raises ETIMEDOUT/EIO/ENODEV/[no errno]; the read for the response raises a hard error) "
+            "must surface as IOError and nothing else, at every k including the RF command, as initiator and as target; "
+            "the same transport-level faults and the surplus responses are also injected at every host command of the "
+            "real clf.sense()/clf.listen() that enters the target kind; distinct by "
+            "(stage, driver, kind, k, action); non-trivial if the scripted action was actually delivered by the simulator")
 RULE_C14 = ("command side: every command code of each chipset table x payload lengths (quick: 0..6, 250..270, max-2..max, "
             "random; thorough: every length) x random contents, frame validated and compared with the payload; response "
             "side: valid responses of many lengths x every single-bit flip, every truncation, extensions, sum-preserving "
             "adjacent byte pairs, random 1-4 byte substitutions, ACK mutations; CRC: all messages <= 2 bytes (3 thorough) + "
-            "random, all single-bit corruptions, driver-side T2T/T1T CRC checks; distinct by the bytes of the case")
+            "random, all single-bit corruptions, driver-side T2T/T1T CRC checks; Type 2 Tag platform targets found by the "
+            "real sense() for all 64 SEL_RES values with (SEL_RES & 60h) == 0 and six ISO-DEP/NFC-DEP ones (thorough: all "
+            "256) x intact / bit-flipped (all bits for 00h and 8 named values, 20 sampled otherwise) / substituted on-air "
+            "answers against a CIU model that checks CRC_A exactly when RxCRCEn is set; distinct by the bytes of the case")
+FRAME_DRIVERS = [d for d in DRIVERS if d != "acr122"]           # ACK phase exists; listen is supported
 REQUIRED_C13 = (["%s_c13_exchanges" % d for d in DRIVERS] + ["%s_c13_cells" % d for d in DRIVERS] +
-                ["%s_c13_truncations_delivered" % d for d in DRIVERS] + ["pn53x_sim_selftest_frames"])
+                ["%s_c13_truncations_delivered" % d for d in DRIVERS] + ["pn53x_sim_selftest_frames"] +
+                ["%s_c13_surplus_delivered" % d for d in DRIVERS] +
+                ["%s_c13_hostlink_write_at_rf_command" % d for d in DRIVERS] +
+                ["%s_c13_hostlink_rsp_checked" % d for d in DRIVERS] +
+                ["%s_c13_hostlink_sense_checked" % d for d in DRIVERS] +
+                ["%s_c13_hostlink_ack_at_rf_command" % d for d in FRAME_DRIVERS] +
+                ["%s_c13_hostlink_as_target_checked" % d for d in FRAME_DRIVERS] +
+                ["%s_c13_hostlink_listen_checked" % d for d in FRAME_DRIVERS])
 REQUIRED_C14 = (["%s_frames_validated" % d for d in DRIVERS] + ["%s_responses_mutated" % d for d in DRIVERS] +
-                ["%s_t2t_crc_cases" % d for d in DRIVERS] + ["pn53x_crc_cases", "pn53x_crc_bitflips", "pn53x_sim_selftest_frames"])
+                ["%s_t2t_crc_cases" % d for d in DRIVERS] + ["pn53x_crc_cases", "pn53x_crc_bitflips", "pn53x_sim_selftest_frames"] +
+                ["%s_t2t_selres_tt2_nonzero_cells" % d for d in DRIVERS] +
+                ["%s_t2t_selres_tt2_nonzero_crc_cases" % d for d in DRIVERS] +
+                ["%s_t2t_selres_iso_or_dep_crc_cases" % d for d in DRIVERS])
 
 
 # ---------------------------------------------------------------------------------------------------------
@@ -133,9 +157,10 @@ def n_variants(kind):
     return len(kind_info(kind, "all")[2])
 
 
-def activate(driver, kind, R, prop):
-    """-> (clf, sim, role) with the real driver in the requested target kind, simulator marked; None if the
-    driver could not be brought there"""
+def prepare(driver, kind, R, prop, field_opts=None):
+    """-> (clf, sim, role, enter): the real driver initialised on the simulator, the field holding the requested
+    target kind; enter() calls the real clf.sense()/clf.listen() and returns what it returned.
+    "init-failed" if the driver could not be initialised"""
     import nfc.clf
     from vf.sim.chipsets import pn53x as S
     made = safe_make(R, driver, prop)
@@ -143,7 +168,8 @@ def activate(driver, kind, R, prop):
         return "init-failed"
     clf, dev, sim, tr = made
     role, fkind, data, tmo = kind_info(kind)
-    sim.st.field = S.Field(fkind, big_rsp=240 if VARIANT[driver] == "pn531" or driver == "acr122" else 258)
+    sim.st.field = S.Field(fkind, big_rsp=240 if VARIANT[driver] == "pn531" or driver == "acr122" else 258,
+                           **(field_opts or {}))
     atr_req = H("D400" "30313233343536373839" "00000032" "46666d010113")
     if role == "ini":
         if kind in ("t2t", "t4a", "t1t", "t1t-read8"):
@@ -156,10 +182,9 @@ def activate(driver, kind, R, prop):
             tg = nfc.clf.RemoteTarget("106A", atr_req=atr_req)
         else:
             tg = nfc.clf.RemoteTarget("424F", atr_req=atr_req)
-        try:
-            found = clf.sense(tg)
-        except nfc.clf.UnsupportedTargetError:
-            found = None
+
+        def enter():
+            return clf.sense(copy_target(tg))
     else:
         if kind == "l-tt2":
             tg = nfc.clf.LocalTarget("106A", sens_res=H("4400"), sdd_res=H("08010203"), sel_res=H("00"))
@@ -171,10 +196,24 @@ def activate(driver, kind, R, prop):
             tg = nfc.clf.LocalTarget("106A", sens_res=H("0101"), sdd_res=H("08010203"), sel_res=H("40"))
             tg.sensf_res = H("01 01fe010203040506 0000000000000000 0000")
             tg.atr_res = H("D501 d0d1d2d3d4d5d6d7d8d9 0000000800")
-        try:
-            found = clf.listen(tg, 1.0)
-        except nfc.clf.UnsupportedTargetError:
-            found = None
+
+        def enter():
+            return clf.listen(copy_target(tg), 1.0)
+    return clf, sim, role, enter
+
+
+def activate(driver, kind, R, prop, field_opts=None):
+    """-> (clf, sim, role) with the real driver in the requested target kind, simulator marked; None if the
+    driver could not be brought there"""
+    import nfc.clf
+    prep = prepare(driver, kind, R, prop, field_opts)
+    if prep == "init-failed":
+        return prep
+    clf, sim, role, enter = prep
+    try:
+        found = enter()
+    except nfc.clf.UnsupportedTargetError:
+        found = None
     if found is None:
         return None
     sim.mark()
@@ -183,13 +222,13 @@ def activate(driver, kind, R, prop):
 
 class Cell(object):
     """one (driver, kind): activated once, then restored before every trial"""
-    def __init__(self, driver, kind, variant=0, R=None, prop="c13"):
+    def __init__(self, driver, kind, variant=0, R=None, prop="c13", field_opts=None):
         self.driver, self.kind, self.variant = driver, kind, variant
         self.role, self.fkind, self.data, self.tmo = kind_info(kind, variant)
         self.rf_cmd_k = None
         self.first_read_k = None
         self.rsplog = {}                  # k -> (octets of the regular response transfer, of its header)
-        a = activate(driver, kind, R, prop)
+        a = activate(driver, kind, R, prop, field_opts)
         self.init_failed = a == "init-failed"
         self.ok = a is not None and not self.init_failed
         if not self.ok:
@@ -236,8 +275,7 @@ def actions_for(sim, cmd, link, tier, role, kind, rsp=None):
     if sim.has_status(cmd):
         acts += [["status", s] for s in range(1, 256)]
         acts += [["status", 0]]
-    faults = S.FAULTS_CCID if link == "ccid" else S.FAULTS_FRAME
-    acts += [["fault", f] for f in faults]
+    acts += [["fault", f] for f in S.faults_for(link)]
     if rsp is not None:
         acts += S.len_actions(link, rsp)
     if kind == "l-tt3":
@@ -254,6 +292,37 @@ def where_of(action, link=None, rsp=None):
         from vf.sim.chipsets import pn53x as S
         return S.cut_region(link, action[1], int(action[2]), rsp)
     return action[1]
+
+
+RF_DELIVERY_CMDS = {0x40, 0x42, 0x86, 0x88, 0x8E, 0x90}      # the commands that hand RF data to / fetch it from the chip
+
+
+def hostlink_clause(R, drv, link, role, action, cmd, name, tag, got, case, exc, at_rf=False, stage="exchange", kind=None):
+    """the transport itself failed while a host command was delivered (write / ACK phase: the chip never saw or
+    never acknowledged it) or raised a hard error instead of the answer: the harness knows that the host link is
+    what broke, so the only documented report is IOError - never an RF outcome, never a normal return"""
+    from vf.sim.chipsets import pn53x as S
+    if action[0] != "fault" or len(action) != 2:
+        return False
+    phase = S.fault_phase(link, action[1])
+    if phase is None:
+        return False
+    R.count("%s_c13_hostlink_%s_checked" % (drv, phase))
+    R.seen("pn53x_c13_hostlink_faults", "%s/%s/%s" % (link, phase, action[1]))
+    if at_rf:
+        R.count("%s_c13_hostlink_%s_at_rf_command" % (drv, phase))
+    if stage == "exchange" and role == "tgt":
+        R.count("%s_c13_hostlink_as_target_checked" % drv)
+    if stage != "exchange":
+        R.count("%s_c13_hostlink_%s_checked" % (drv, stage))
+    if tag == "ioerror":
+        return False
+    if tag in ("escape", "badtype", "bound"):
+        return False                               # judged by the coarse clauses
+    R.violation("%s/class/hostlink-%s%s@%s->%s" % (drv, phase, "" if stage == "exchange" else "/%s:%s" % (stage, kind), name, got),
+                "%s: the host link failed (%s, %s phase of host command %s, %s) but the driver reported %s instead "
+                "of IOError" % (drv, action[1], phase, name, stage, got), case)
+    return True
 
 
 def judge_c13(R, cell, k, action, cmd, out, exc, follow=False):
@@ -287,6 +356,9 @@ def judge_c13(R, cell, k, action, cmd, out, exc, follow=False):
     variant = VARIANT[drv]
     got = out[1] if tag == "comm" else tag
     last_rf = cell.rf_cmd_k
+    if hostlink_clause(R, drv, cell.sim.link, cell.role, action, cmd, name, tag, got, case, exc,
+                       at_rf=(cmd in RF_DELIVERY_CMDS)):
+        return True
     if action == ["status", 1] and cell.role == "ini" and k == last_rf and cmd in (0x40, 0x42):
         R.count("%s_c13_finer_checked" % drv)
         if got != "TimeoutError":
@@ -419,7 +491,10 @@ def run_cell_c13(R, driver, kind, tier, rng, only=None, variant=0):
             where = where_of(action, link, cell.rsplog.get(k))
             cls = "%s/%s/%s/%s" % (kind, S.NAMES.get(cmd, cmd), "status" if action[0] == "status" else where, ":".join(str(x) for x in out))
             R.seen("%s_c13_outcomes" % driver, cls)
-            if len(action) > 2:
+            if len(action) > 2 and action[1] == "surplus":
+                R.count("%s_c13_surplus_delivered" % driver)
+                R.seen("pn53x_c13_surplus_outcomes", "%s/%s/%s" % (S.NAMES.get(cmd, cmd), driver, ":".join(str(x) for x in out[:2])))
+            elif len(action) > 2:
                 R.count("%s_c13_truncations_delivered" % driver)
                 R.count("pn53x_c13_%s_%s" % (where.replace(":", "_").replace("-", "_"), out[0]))
             R.count("pn53x_c13_outcome_" + out[0])
@@ -436,6 +511,115 @@ def run_cell_c13(R, driver, kind, tier, rng, only=None, variant=0):
                 out3, exc3, _ = cell.exchange({})
                 R.count("%s_c13_followup_exchanges" % driver)
                 judge_c13(R, cell, k, action, cmd, out3, exc3, follow=True)
+
+
+# host-link faults while a target kind is being entered --------------------------------------------------------
+ACTIVATION_KINDS = ["t2t", "t4a", "t1t", "106b", "212f", "dep106", "dep424", "l-tt2", "l-tt4", "l-tt3", "l-dep106", "l-dep424"]
+
+
+def run_activation_c13(R, driver, kind, tier, rng, only=None):
+    """clf.sense() / clf.listen() with the k-th host command of the activation disturbed by (a) every host-link
+    fault where the transport itself fails (write / ACK / hard read error): the call must raise IOError - finding
+    "no target", returning a target or raising an RF error would report a dead reader as an RF outcome; (b) a well
+    formed response with surplus payload octets: coarse clause (no foreign exception).
+    only = (k, action) restricts to one trial (replay)"""
+    import nfc.clf
+    from vf.sim.chipsets import pn53x as S
+    if kind not in SUPPORT[driver]:
+        return
+    prep = prepare(driver, kind, R, "c13")
+    if prep == "init-failed":
+        return
+    clf, sim, role, enter = prep
+    link = sim.link
+    sim.mark()
+    snap = sim.snapshot()
+    t0 = sim.clock.now
+
+    def attempt(script):
+        sim.restore(snap)
+        sim.script = script
+        sim.clock.now = t0
+        clf.target = None
+        try:
+            r = enter()
+        except nfc.clf.CommunicationError as e:
+            return ("comm", type(e).__name__), e
+        except nfc.clf.UnsupportedTargetError as e:
+            return ("unsupported",), e
+        except OSError as e:
+            return ("ioerror", e.errno), e
+        except S.SimBound as e:
+            return ("bound",), e
+        except BaseException as e:            # noqa
+            return ("escape", type(e).__name__), e
+        if r is None:
+            return ("none",), None
+        if isinstance(r, (nfc.clf.RemoteTarget, nfc.clf.LocalTarget)):
+            return ("found",), None
+        return ("badtype", type(r).__name__), None
+
+    out, exc = attempt({})
+    cmds = [c for (_, c, _) in sim.cmdlog]
+    n = sim.since_mark()
+    rsplog = dict(sim.rsplog)
+    if out != ("found",) or n < 1 or len(cmds) != n:
+        R.inconc("%s/%s: reference activation did not find the target (%r, %r)" % (driver, kind, out, exc))
+        return
+    out2, _ = attempt({})
+    if (out2, [c for (_, c, _) in sim.cmdlog]) != (out, cmds):
+        R.inconc("%s/%s: restore() does not reproduce the reference activation" % (driver, kind))
+        return
+    R.count("%s_c13_activation_cells" % driver)
+    R.max("%s_host_commands_per_activation" % driver, n)
+    R.seen("pn53x_activation_command_sequences", "%s/%s: %s" % (driver, kind, " ".join(S.NAMES.get(c, "%02X" % c) for c in cmds)))
+    ks = list(range(1, n + 1))
+    if only is not None:
+        ks = [k for k in ks if k == only[0]]
+    elif n > 14 and tier == "quick":
+        ks = sorted(set(ks[:8] + ks[-3:] + rng.sample(ks[8:-3], 3)))
+    hard = [["fault", f] for f in S.faults_for(link) if S.fault_phase(link, f)]
+    for k in ks:
+        cmd = cmds[k - 1]
+        name = S.NAMES.get(cmd, "%02X" % cmd)
+        acts = list(hard)
+        if k in rsplog:
+            acts += [["fault", "surplus", m] for m in S.SURPLUS_LENGTHS]
+        if only is not None:
+            if k != only[0]:
+                continue
+            acts = [only[1]]
+        for action in acts:
+            out, exc = attempt({k: action})
+            delivered = any(a[0] == k for a in sim.applied)
+            R.case(("activation", driver, kind, k, action), nontrivial=delivered)
+            R.count("%s_c13_activation_attempts" % driver)
+            if not delivered:
+                R.count("%s_c13_action_not_delivered" % driver)
+                continue
+            case = {"family": "pn53x_family", "stage": "activation", "driver": driver, "kind": kind, "k": k, "action": action}
+            where = where_of(action, link, rsplog.get(k))
+            R.seen("%s_c13_activation_outcomes" % driver, "%s/%s/%s/%s" % (kind, name, where, ":".join(str(x) for x in out)))
+            if len(action) > 2:
+                R.count("%s_c13_surplus_delivered" % driver)
+                R.seen("pn53x_c13_surplus_outcomes", "%s/%s/%s" % (name, driver, ":".join(str(x) for x in out[:2])))
+            tag = out[0]
+            if tag == "bound":
+                R.inconc("%s/%s: host command bound hit during activation at k=%d %r" % (driver, kind, k, action))
+                continue
+            if tag == "escape":
+                R.violation("%s/escape/%s/%s@%s/activation" % (driver, exc_sig(exc), where, name),
+                            "%s %s: clf.%s() raised %s (%s) for %r at host command %d (%s)" % (
+                                driver, kind, "sense" if role == "ini" else "listen", type(exc).__name__, str(exc)[:80],
+                                action, k, name), case)
+                continue
+            if tag == "badtype":
+                R.violation("%s/return-type/%s/%s@%s/activation" % (driver, out[1], where, name),
+                            "%s %s: sense/listen returned a %s" % (driver, kind, out[1]), case)
+                continue
+            got = out[1] if tag == "comm" else tag
+            hostlink_clause(R, driver, link, role, action, cmd, name, tag, got, case, exc,
+                            at_rf=False, stage="sense" if role == "ini" else "listen", kind=kind)
 
 
 # cells and shards ------------------------------------------------------------------------------------------
@@ -479,6 +663,8 @@ def run_c13(desc, R, rng):
         return
     for d, k, v in desc["cells"]:
         run_cell_c13(R, d, k, desc.get("tier", "quick"), rng, variant=v)
+        if v == 0 and k in ACTIVATION_KINDS:
+            run_activation_c13(R, d, k, desc.get("tier", "quick"), rng)
     R.exhaustive = False
 
 
@@ -486,6 +672,9 @@ def replay_c13(case, R):
     if not selftests(R):
         return
     action = list(case["action"])
+    if case.get("stage") == "activation":
+        run_activation_c13(R, case["driver"], case["kind"], "quick", random.Random(0), only=(int(case["k"]), action))
+        return
     if action[0] == "none":
         run_cell_c13(R, case["driver"], case["kind"], "quick", random.Random(0), only=(-1, ["none"], False),
                      variant=int(case.get("variant", 0)))
@@ -841,8 +1030,128 @@ def run_crc(R, desc, rng):
                             {"family": "pn53x_family", "part": "crc", "msg": m})
 
 
+SEL_NAMED = [0x08, 0x09, 0x10, 0x18, 0x88, 0x04, 0x01, 0x98]       # MIFARE Classic 1K/Mini/Plus/4K, SmartMX, ...
+SEL_TT2 = [v for v in range(256) if v & 0x60 == 0]                  # what sense_tta() treats as "Type 2 Tag platform"
+SEL_OTHER = [0x20, 0x28, 0x38, 0x40, 0x60, 0xA0]                    # ISO-DEP / NFC-DEP capable: the CIU keeps checking
+
+
+def sel_class(sel):
+    if sel == 0:
+        return "selres-00"
+    if sel & 0x60 == 0:
+        return "selres-tt2-nonzero"
+    return "selres-iso-or-dep"
+
+
+def run_selres_crc(R, driver, tier, rng, only=None):
+    """Type 2 Tag platform targets over every SEL_RES value with (SEL_RES & 60h) == 0 (plus a few ISO-DEP/NFC-DEP
+    ones), discovered through the real clf.sense(); the simulated CIU verifies/strips CRC_A exactly when the driver
+    left CIU_RxMode.RxCRCEn set.  On-air answers are chosen by the monitor (intact, every/sampled single-bit flips,
+    substitutions): a frame whose CRC_A is wrong under vf.ref.crc must never come back as data, an intact frame
+    must come back as its payload without the CRC octets."""
+    if "t2t" not in SUPPORT[driver]:
+        return
+    if only is not None:
+        sels = [int(only["sel_res"])]
+    elif tier == "quick":
+        sels = SEL_TT2 + SEL_OTHER
+    else:
+        sels = list(range(256))
+    for sel in sels:
+        cell = Cell(driver, "t2t", 0, R, "c14", field_opts={"sel_res": sel})
+        if not cell.ok:
+            if not cell.init_failed:
+                R.inconc("%s: cannot enter t2t with SEL_RES %02Xh" % (driver, sel))
+            continue
+        got_sel = cell.clf.target.sel_res
+        if got_sel is None or len(got_sel) != 1 or got_sel[0] != sel:
+            R.inconc("%s: sense() reports SEL_RES %r for a target that answers %02Xh" % (driver, got_sel, sel))
+            continue
+        cls_sel = sel_class(sel)
+        rxcrc = bool(cell.sim.st.regs.get(0x6303, 0x80) & 0x80)
+        R.count("%s_t2t_%s_cells" % (driver, cls_sel.replace("-", "_")))
+        R.seen("pn53x_selres_rxcrcen", "%s/%s/RxCRCEn=%d" % (driver, cls_sel, rxcrc))
+
+        def trial(raw, cls):
+            crc_trial(R, cell, driver, "t2t", "a", raw, cls, sel)
+
+        if only is not None:
+            trial(only["raw"], only.get("cls", "replay"))
+            continue
+        full = tier != "quick" or sel in SEL_NAMED or sel == 0
+        for ln in ([16, 1, 4] if tier == "quick" else [16, 1, 2, 4, 15, 17, 32]):
+            good = refcrc.append_crc_a(rng.randbytes(ln))
+            trial(good, "valid")
+            nbits = len(good) * 8
+            bits = range(nbits) if (full and ln == 16) or tier != "quick" else sorted(rng.sample(range(nbits), min(nbits, 20 if ln == 16 else 6)))
+            for i in bits:
+                m = bytearray(good)
+                m[i // 8] ^= 1 << (i % 8)
+                trial(bytes(m), "bitflip")
+            for _ in range(4 if tier == "quick" else 20):
+                m = bytearray(good)
+                for __ in range(rng.randrange(1, 4)):
+                    m[rng.randrange(len(m))] = rng.randrange(256)
+                if bytes(m) != good:
+                    trial(bytes(m), "substitute")
+        # the 4 bit ACK / NAK of a Type 2 Tag (one octet, no CRC) must reach the caller where the driver asked for it
+        if sel & 0x60 == 0:
+            trial(b"\x0a", "ack4")
+
+
+def crc_trial(R, cell, driver, kind, which, raw, cls, sel=None):
+    """one exchange whose on-air answer is `raw` (CRC octets included); the C14 CRC oracle"""
+    tname = "t2t" if which == "a" else "t1t"
+    chk = refcrc.check_crc_a if which == "a" else refcrc.check_crc_b
+    suffix = "" if sel is None else "/" + sel_class(sel)
+    cname = "%s_t%st_crc_cases" % (driver, "2" if which == "a" else "1") if sel is None else \
+        "%s_t2t_%s_crc_cases" % (driver, sel_class(sel).replace("-", "_"))
+    cell.reset()
+    cell.sim.st.field.rsp_override = bytes(raw)
+    out, exc, data = cell.exchange({})
+    case = {"family": "pn53x_family", "part": "drvcrc", "driver": driver, "kind": kind, "raw": bytes(raw), "cls": cls}
+    if sel is not None:
+        case["sel_res"] = sel
+    R.case(("drvcrc", driver, kind, sel, bytes(raw)))
+    R.count(cname)
+    if len(raw) < 3:
+        # no room for a CRC: nothing to verify; the octets either come back as they are or the exchange fails
+        R.count("%s_drvcrc_short_%s" % (driver, out[0]))
+        if out[0] == "data" and data != bytes(raw):
+            R.violation("%s/%s-crc/wrong-data-short%s" % (driver, tname, suffix),
+                        "%s returned %s for the %d octet answer %s" % (driver, data.hex(), len(raw), bytes(raw).hex()), case)
+        elif out[0] == "escape":
+            R.violation("%s/escape/%s/crc-%s" % (driver, exc_sig(exc), cls), "%s: %r" % (driver, exc), case)
+        elif out[0] == "comm" and cls == "ack4" and sel is not None and sel & 0x60 == 0:
+            R.violation("%s/%s-crc/ack-nak-lost%s" % (driver, tname, suffix),
+                        "%s raised %s for the 4 bit ACK of a Type 2 Tag (SEL_RES %02Xh)" % (driver, out[1], sel), case)
+        return
+    valid = chk(raw)
+    if out[0] == "data":
+        R.count("%s_drvcrc_%s_accepted" % (driver, cls))
+        if not valid:
+            R.violation("%s/%s-crc/accepted-wrong-crc%s" % (driver, tname, suffix),
+                        "%s returned %s as data although its CRC_%s is wrong%s" % (
+                            driver, bytes(raw).hex()[:48], which.upper(), "" if sel is None else " (SEL_RES %02Xh)" % sel), case)
+        elif data != bytes(raw)[:-2]:
+            R.violation("%s/%s-crc/wrong-data%s" % (driver, tname, suffix),
+                        "%s returned other data than the frame with the correct CRC carries%s (%d octets for a %d octet "
+                        "payload)" % (driver, "" if sel is None else " (SEL_RES %02Xh)" % sel, len(data), len(raw) - 2), case)
+    elif out[0] == "comm":
+        R.count("%s_drvcrc_%s_rejected" % (driver, cls))
+        if valid and cls == "valid":
+            R.violation("%s/%s-crc/rejected-correct-crc%s" % (driver, tname, suffix),
+                        "%s raised %s for a frame with the correct CRC" % (driver, out[1]), case)
+    elif out[0] == "escape":
+        R.violation("%s/escape/%s/crc-%s" % (driver, exc_sig(exc), cls), "%s: %r" % (driver, exc), case)
+    else:
+        R.count("%s_drvcrc_%s_other" % (driver, cls))
+
+
 def run_driver_crc(R, driver, tier, rng, only=None):
     """driver-side CRC verification: Type 2 Tag READ (CRC_A, all drivers), Type 1 Tag READ8 through the CIU (CRC_B)"""
+    if only is not None and only.get("sel_res") is not None:
+        return run_selres_crc(R, driver, tier, rng, only)
     kinds = ["t2t"] + (["t1t-read8"] if "t1t-read8" in SUPPORT[driver] and driver != "rcs956" else [])
     for kind in kinds:
         cell = Cell(driver, kind, 0, R, "c14")
@@ -855,31 +1164,8 @@ def run_driver_crc(R, driver, tier, rng, only=None):
         mk = refcrc.append_crc_a if which == "a" else refcrc.append_crc_b
         chk = refcrc.check_crc_a if which == "a" else refcrc.check_crc_b
 
-        def trial(raw, cls):
-            cell.reset()
-            cell.sim.st.field.rsp_override = bytes(raw)
-            out, exc, data = cell.exchange({})
-            case = {"family": "pn53x_family", "part": "drvcrc", "driver": driver, "kind": kind, "raw": bytes(raw), "cls": cls}
-            R.case(("drvcrc", driver, kind, bytes(raw)))
-            R.count("%s_t%st_crc_cases" % (driver, "2" if which == "a" else "1"))
-            valid = chk(raw)
-            if out[0] == "data":
-                R.count("%s_drvcrc_%s_accepted" % (driver, cls))
-                if not valid:
-                    R.violation("%s/%s-crc/accepted-wrong-crc" % (driver, "t2t" if which == "a" else "t1t"),
-                                "%s returned %s as data although its CRC_%s is wrong" % (driver, bytes(raw).hex()[:48], which.upper()), case)
-                elif data != bytes(raw)[:-2]:
-                    R.violation("%s/%s-crc/wrong-data" % (driver, "t2t" if which == "a" else "t1t"),
-                                "%s returned other data than the frame with the correct CRC carries" % driver, case)
-            elif out[0] == "comm":
-                R.count("%s_drvcrc_%s_rejected" % (driver, cls))
-                if valid and cls == "valid":
-                    R.violation("%s/%s-crc/rejected-correct-crc" % (driver, "t2t" if which == "a" else "t1t"),
-                                "%s raised %s for a frame with the correct CRC" % (driver, out[1]), case)
-            elif out[0] == "escape":
-                R.violation("%s/escape/%s/crc-%s" % (driver, exc_sig(exc), cls), "%s: %r" % (driver, exc), case)
-            else:
-                R.count("%s_drvcrc_%s_other" % (driver, cls))
+        def trial(raw, cls, cell=cell, kind=kind, which=which):
+            crc_trial(R, cell, driver, kind, which, raw, cls)
 
         if only is not None:
             if only["kind"] == kind:
@@ -923,6 +1209,8 @@ def plan_c14(tier):
         for i in range(4):
             descs.append({"part": "crc", "first": [i * 64, i * 64 + 64], "rand": 800, "timeout": 300})
         descs.append({"part": "drvcrc", "drivers": DRIVERS, "timeout": 300})
+        descs.append({"part": "selres", "drivers": DRIVERS[0::2], "timeout": 300})
+        descs.append({"part": "selres", "drivers": DRIVERS[1::2], "timeout": 300})
     else:
         for d in DRIVERS:
             descs.append({"part": "driver", "drivers": [d], "reps": 2, "timeout": 1500})
@@ -931,6 +1219,8 @@ def plan_c14(tier):
         descs.append({"part": "drvcrc", "drivers": DRIVERS[:4], "timeout": 1500})
         descs.append({"part": "drvcrc", "drivers": DRIVERS[4:], "timeout": 1500})
         descs[-2]["drivers"], descs[-1]["drivers"] = DRIVERS[0::2], DRIVERS[1::2]
+        for d in DRIVERS:
+            descs.append({"part": "selres", "drivers": [d], "timeout": 1500})
     return descs
 
 
@@ -947,6 +1237,9 @@ def run_c14(desc, R, rng):
     elif desc["part"] == "drvcrc":
         for d in desc["drivers"]:
             run_driver_crc(R, d, tier, rng)
+    elif desc["part"] == "selres":
+        for d in desc["drivers"]:
+            run_selres_crc(R, d, tier, rng)
     R.exhaustive = False
 
 
